@@ -131,6 +131,9 @@ func c01Gen(t *rapid.T, tier string) any {
 	if rapid.IntRange(0, 1).Draw(t, "postyield") == 0 {
 		c.Cfg.Buggify = append(c.Cfg.Buggify, "ds-post-yield")
 	}
+	if rapid.IntRange(0, 1).Draw(t, "batchkeeps") == 0 {
+		c.Cfg.Buggify = append(c.Cfg.Buggify, "batch-keeps-ops")
+	}
 	return c
 }
 
